@@ -395,6 +395,11 @@ def apply_edits_to_markdown(
             logger.warning(f"Skipping edit {idx}: target_text not found: '{target[:50]}...'")
             continue
 
+        if start == end:
+            # Boundary refinement can shrink a match to nothing; an empty range marks no text
+            logger.warning(f"Skipping edit {idx}: match for '{target[:50]}' is empty after boundary refinement")
+            continue
+
         actual_matched_text = markdown_text[start:end]
         matched_edits.append((start, end, actual_matched_text, edit, idx))
 
